@@ -174,8 +174,13 @@ func c05sOne(t *verifh.T, toks []string) {
 	if err := verifh.MaterializeTree(root, tree); err != nil {
 		panic(err)
 	}
-	args := []string{"meta", "blob=" + verifh.Hex(blob), "pl=" + strconv.Itoa(pl), "tree=" + verifh.List(c05sCanonTree(root)),
-		"name=" + name, "mi=" + verifh.Hex(mib)}
+	hasBackend := c05sKV(toks, "backend") != "0"
+	cached := "0"
+	if _, err := os.Stat(filepath.Join(root, dir, "data")); err == nil {
+		cached = "1"
+	}
+	args := []string{"meta", "blob=" + verifh.Hex(blob), "pl=" + strconv.Itoa(pl), "backend=" + verifh.Bool(hasBackend),
+		"tree=" + verifh.List(c05sCanonTree(root)), "name=" + name, "mi=" + verifh.Hex(mib), "cached=" + cached}
 	cas, err := store.NewCAStore(store.CAStoreConfig{
 		UploadDir: filepath.Join(root, "upload"), CacheDir: filepath.Join(root, "cache"),
 		UploadCleanup: store.CleanupConfig{Disabled: true}, CacheCleanup: store.CleanupConfig{Disabled: true},
@@ -186,7 +191,11 @@ func c05sOne(t *verifh.T, toks []string) {
 	}
 	defer cas.Close()
 	bm := backend.ManagerFixture()
-	if err := bm.Register(c05sNS, &c05sBackend{map[string][]byte{name: blob}}, false); err != nil {
+	held := map[string][]byte{}
+	if hasBackend {
+		held[name] = blob
+	}
+	if err := bm.Register(c05sNS, &c05sBackend{held}, false); err != nil {
 		panic(err)
 	}
 	mg := metainfogen.Fixture(cas, pl)
@@ -249,9 +258,9 @@ func c05sOne(t *verifh.T, toks []string) {
 func c05sCases() []verifh.Case {
 	var out []verifh.Case
 	r := verifh.NewRand(verifh.Seed(), "c05s")
-	mk := func(blob []byte, pl int, tree []string) {
+	mk := func(blob []byte, pl int, tree []string, backend string) {
 		out = append(out, verifh.Case{Ops: [][]string{{"one", "meta", "blob=" + verifh.Hex(blob), "pl=" + strconv.Itoa(pl),
-			"tree=" + verifh.List(tree)}}})
+			"backend=" + backend, "tree=" + verifh.List(tree)}}})
 	}
 	lats := []string{"", "x", "x00000000000000000000", "x4c4154", "x4f4c44"}
 	tms := []string{"", "x", "%", "@"}
@@ -278,14 +287,16 @@ func c05sCases() []verifh.Case {
 				if pe != "" {
 					tree = append(tree, "f:$/_persist:"+pe)
 				}
-				mk(blob, 1+r.Intn(3), tree)
+				// the backend holds the blob, or (a blob that was never written back) does not
+				mk(blob, 1+r.Intn(3), tree, r.Pick("0", "0", "1"))
 			}
 		}
 	}
 	// no blob file: nothing at all, an empty directory, a directory with only the last access time
 	for _, tree := range [][]string{{"d:cache"}, {"d:$"}, {"d:$", "f:$/_last_access_time:x"}, {"d:$", "f:$/_last_access_time:x4c4154"},
 		{"d:upload/zz", "f:upload/zz/data:x6162", "d:$", "f:$/_last_access_time:x4f4c44"}} {
-		mk([]byte("blob"+strconv.Itoa(len(out))), 2, tree)
+		mk([]byte("blob"+strconv.Itoa(len(out))), 2, tree, "1")
+		mk([]byte("blob"+strconv.Itoa(len(out))), 2, tree, "0")
 	}
 	return out
 }
@@ -312,7 +323,7 @@ func TestVerif_C05Srv(t *testing.T) {
 			if len(op) >= 2 && op[0] == "one" && op[1] == "meta" {
 				var toks []string
 				for _, tk := range op[2:] {
-					if !strings.HasPrefix(tk, "name=") && !strings.HasPrefix(tk, "mi=") {
+					if !strings.HasPrefix(tk, "name=") && !strings.HasPrefix(tk, "mi=") && !strings.HasPrefix(tk, "cached=") {
 						toks = append(toks, tk)
 					}
 				}
